@@ -12,14 +12,18 @@ C13, part 3 of DESIGN.md 3/C13: the Promela model of the table-publication proto
      or invalid end state => violation class C13/model/<assert-name>, witness = `spin -t` output.
   3. Binding back to the code: the model is re-run with history variables (-DENUM; every scheduling and
      read choice is part of the state, so no two executions are merged; pan prints one EXEC line per
-     complete execution). Every sequentially consistent execution (each load read the newest message) is a
+     complete execution; an independent Python enumerator of the same semantics must arrive at the same
+     counts). Every sequentially consistent execution (each load read the newest message) is a
      schedule = thread id per atomic operation; it is forced on the REAL code with drv_sched's order mode
-     (shim build: one step per atomic operation, fresh process per schedule) and the first len(schedule)
-     atomic operations of the real run must equal the model's, operation by operation: thread, kind
-     (load/store/rmw), value read or written, success flag AND the run-time std::memory_order (so the
-     extractor's orders are checked against what the compiled code really passes); the CAS winner and each
-     thread's boolean result (its output equals the single-threaded output <=> ensure_tables() returned
-     true) must match as well. Mismatch => class C13/model/conformance.
+     (shim build: one step per atomic operation, one fresh forked process per schedule, batched through
+     `drv_sched --orders file`) and the first len(schedule) atomic operations of the real run must equal
+     the model's, operation by operation: thread, kind (load/store/rmw), value read or written, success
+     flag AND the run-time std::memory_order (so the extractor's orders are checked against what the
+     compiled code really passes); the claim winner and each thread's boolean result (its output equals
+     the single-threaded output <=> ensure_tables() returned true) must match as well. A mismatch that
+     reproduces in two more fresh processes => class C13/model/conformance.
+     When the model is violated, a sequentially consistent counterexample is looked for (-DSCONLY) and,
+     if there is one, forced on the real code too; what the code did is part of the witness.
 
 Result JSON has the shape of the drivers' shard results (evaluations, counters{states, transitions,
 traces_validated}, violations[], samples[], exhaustive, note) so that check.py's merge_stage consumes it.
@@ -228,6 +232,91 @@ def enumerate_executions(d, timeout_s):
     return st, ex
 
 
+# ---------------------------------------------------------------- independent count of the executions
+
+def count_executions(p, n, spinmax=1):
+    """A second, independent enumeration (plain Python DFS over the same operational semantics, inflate succeeding,
+    no fast entry) of the complete executions of the protocol: -> (all, sequentially consistent). Compared with
+    the number of EXEC lines pan prints, so that neither state matching nor duplicate paths can go unnoticed."""
+    READY, FAILED, UNINIT, INPROG = 2, 3, 0, 1
+    claim = p["claim"]
+    total = [0, 0]
+    msgs = [(UNINIT, False)]                      # (value, written by a seq_cst operation)
+    th = [{"pc": "init", "coh": 0, "spins": 0} for _ in range(n)]
+
+    def readable(t, order):
+        lo = th[t]["coh"]
+        if order == 5:
+            for i in range(len(msgs) - 1, lo, -1):
+                if msgs[i][1]:
+                    lo = i
+                    break
+        return range(lo, len(msgs))
+
+    def go(sc):
+        if all(x["pc"] == "done" for x in th):
+            total[0] += 1
+            total[1] += 1 if sc else 0
+            return
+        for t in range(n):
+            T = th[t]
+            pc = T["pc"]
+            if pc == "done":
+                continue
+            save = dict(T)
+            if pc in ("init", "claimload", "spin"):
+                order = {"init": p["init_load"], "claimload": p.get("claim_load", 2), "spin": p["spin_load"]}[pc]
+                for i in readable(t, order):
+                    v = msgs[i][0]
+                    if pc == "spin" and v < READY and T["spins"] >= spinmax:
+                        continue
+                    T["coh"] = i
+                    if pc == "init":
+                        if v >= READY:
+                            T["pc"] = "done"
+                        elif claim == "cas":
+                            T["pc"] = "cas"
+                        elif claim == "load_store":
+                            T["pc"] = "claimload"
+                        else:
+                            T["pc"] = "claimstore" if v == UNINIT else "spin"
+                    elif pc == "claimload":
+                        T["pc"] = "claimstore" if v == UNINIT else "spin"
+                    else:
+                        if v >= READY:
+                            T["pc"] = "done"
+                        else:
+                            T["spins"] += 1
+                    go(sc and i == len(msgs) - 1)
+                    T.update(save)
+            elif pc == "cas":
+                last = len(msgs) - 1
+                if msgs[last][0] == UNINIT:
+                    msgs.append((INPROG, p["cas_ok"] == 5))
+                    T["coh"], T["pc"] = last + 1, "win"
+                    go(sc)
+                    msgs.pop()
+                    T.update(save)
+                    if p.get("cas_weak"):
+                        T["coh"], T["pc"] = last, "spin"
+                        go(sc)
+                        T.update(save)
+                else:
+                    T["coh"], T["pc"] = last, "spin"
+                    go(sc)
+                    T.update(save)
+            elif pc in ("claimstore", "win"):
+                order = p.get("claim_store", 3) if pc == "claimstore" else p["ready_store"]
+                msgs.append((INPROG if pc == "claimstore" else READY, order == 5))
+                T["coh"], T["pc"] = len(msgs) - 1, ("win" if pc == "claimstore" else "done")
+                go(sc)
+                msgs.pop()
+                T.update(save)
+
+    go(True)
+    return total[0], total[1]
+
+
 # ---------------------------------------------------------------- the real code under the scheduler
 
 def sched_exe():
@@ -339,6 +428,7 @@ def run(tier="quick", only=None):
     thorough = tier.startswith("t")
     res = new_result()
     p = xtp.run()
+    res["extra"]["timing_s"] = {"extract": round(time.time() - t0, 1)}
     # test hook (demonstrates the conformance check): JSON object merged over the extracted parameters, i.e. a
     # deliberately wrong extraction. Never set by check.py.
     if p.get("bound") and os.environ.get("VERIF_C13_MODEL_OVERRIDE"):
@@ -374,8 +464,6 @@ def run(tier="quick", only=None):
 
 
 def _run_bound(res, p, thorough, work, only):
-    budget = 240 if thorough else 25
-    deadline = time.time() + budget
     ns = [2, 3]
     configs = []     # (name, defs, enum, n)
     for n in ns:
@@ -393,6 +481,8 @@ def _run_bound(res, p, thorough, work, only):
         exe_future = pool.submit(sched_exe)
 
     # ---- 2. exhaustive verification runs
+    tm = res["extra"].setdefault("timing_s", {})
+    t1 = time.time()
     viol = {}
     sizes = {}
     for name, defs, enum, n in configs:
@@ -403,8 +493,9 @@ def _run_bound(res, p, thorough, work, only):
             res["exhaustive"] = False
             res["note"] += "model N=%d not checked (%s). " % (n, err[:200])
             continue
-        left = max(5, deadline - time.time())
-        st, found, tail = verify(d, defs, min(left, 150 if thorough else 12), 500)
+        # fixed, generous limits (the runs take well under a second on an idle machine): a loaded machine must not
+        # turn an exhaustive run into a silent partial one
+        st, found, tail = verify(d, defs, 240 if thorough else 90, 500)
         res["counters"]["states"] += st["states"]
         res["counters"]["transitions"] += st["transitions"]
         res["evaluations"] += st["transitions"]
@@ -426,6 +517,7 @@ def _run_bound(res, p, thorough, work, only):
                 continue
             viol[cls] = {"n": n, "depth": depth, "defs": defs, "trail": lines}
     res["extra"]["model_sizes"] = sizes
+    tm["build_and_verify"] = round(time.time() - t1, 1)
 
     # prefer a sequentially consistent counterexample (SCONLY model): the real code can be driven through it
     for cls, v in sorted(viol.items()):
@@ -495,17 +587,24 @@ def _run_bound(res, p, thorough, work, only):
             res["exhaustive"] = False
             res["note"] += "executions N=%d not enumerated (%s). " % (n, err[:200])
             continue
-        left = max(5, deadline - time.time())
-        st, ex = enumerate_executions(d, min(left, 120 if thorough else 12))
+        st, ex = enumerate_executions(d, 240 if thorough else 90)
         if not st["complete"] or st["errors"]:
             res["exhaustive"] = False
             res["note"] += "enumeration N=%d incomplete. " % n
         execs[n] = ex
+        mine = count_executions(p, n)
+        pans = (len(ex), sum(1 for e in ex if e["sc"]))
+        if mine != pans:
+            # the model's enumeration and the independent one disagree: harness problem, never a verdict
+            res["exhaustive"] = False
+            res["note"] += "N=%d: pan enumerated %s executions (all, SC), the independent enumerator %s. " % (n, pans, mine)
         res["extra"].setdefault("executions", {})["N=%d" % n] = {
             "complete_executions": len(ex), "sequentially_consistent": sum(1 for e in ex if e["sc"]),
-            "tree_states": st["states"], "exec_lines": st["exec_lines"]}
+            "tree_states": st["states"], "exec_lines": st["exec_lines"], "independent_enumerator": list(mine)}
+    tm["enumerate"] = round(time.time() - t1 - tm["build_and_verify"], 1)
+    t2 = time.time()
     # the replay budget starts now (builds and model runs are behind us)
-    deadline = time.time() + (210 if thorough else 16)
+    deadline = time.time() + (240 if thorough else 40)
     required, bonus = [], []      # jobs: (n, harness, case, execution)
     for n, ex in sorted(execs.items()):
         harness, cases = ("H1", H1_CASES) if n == 2 else ("H2", H2_CASES)
@@ -562,6 +661,8 @@ def _run_bound(res, p, thorough, work, only):
         if verdict == "match":
             matched += 1
             n, h, c, e = job
+            if len(res["distinct"]) < 20000:
+                res["distinct"].append(hashlib.sha256(("%s/%d/%r" % (h, c, e["ops"])).encode()).hexdigest()[:16])
             if len(res["samples"]) < 6 and matched in (1, 2, 25, 70, 150, 1000):
                 res["samples"].append({"model_execution": {"threads": n, "schedule": [o[0] for o in e["ops"]],
                                                             "ops(thread,kind,value,order,ok)": [list(o) for o in e["ops"]],
@@ -594,6 +695,8 @@ def _run_bound(res, p, thorough, work, only):
     if unmap or flaky:
         res["exhaustive"] = False
         res["note"] += "%d replays not mappable, %d not reproducible (harness, not a verdict). " % (unmap, flaky)
+    res["distinct_count"] = len(res["distinct"])
+    tm["replay_on_code"] = round(time.time() - t2, 1)
     res["counters"]["traces_validated"] = matched
     res["counters"]["model_traces_replayed"] = matched + n_suspects + unmap
     res["counters"]["model_traces_mismatched"] = mism
